@@ -20,13 +20,23 @@ EXACT = ["QSV_GMP_EXACT", "QSV_NARROW", "QSV_INF=1024"]
 CHK_BOUND = "fixed dimension 2 rows x 2 structural columns (+2 logicals), integer data |v| <= 2 (bounds also +-infinity), candidate x |v| <= 4, arbitrary sparse layout incl. duplicate entries, both column orders; all loops completely unwound (unwinding assertions on); exact integer arithmetic with overflow asserted absent"
 CHK_ASSUMED = "exact checkers: mpq_QSload_basis is a nondeterministic stub; ILLlp_cache_* are the real functions of lpdata.c; GMP = EXACT pair model (values stay integral in this bound)"
 
+def chk(fn, props, nr, ns, tier, timeout, vmax=2):
+    bound = CHK_BOUND.replace("2 rows x 2 structural columns (+2 logicals)", "%d row(s) x %d structural column(s) (+%d logical(s))" % (nr, ns, nr)).replace("|v| <= 2", "|v| <= %d" % vmax).replace("|v| <= 4", "|v| <= %d" % (2 * vmax))
+    return Group("exact/%s_%dx%d" % (fn, nr, ns), "exact_checkers.c", tus=["exact.c", "lpdata_mpq.c", "allocrus.c"], model=MODEL,
+                 defines=["FN_" + fn, "NR=%d" % nr, "NS=%d" % ns, "VMAX=%d" % vmax] + EXACT, dfcc=False, unwind=2 * (nr + ns) + 2, kind="bounded", bound=bound,
+                 timeout=timeout, tier=tier, must_fail=["reach_end", "reach_accept", "reach_reject"],
+                 functions=["QSexact_optimal_test" if fn == "opttest" else "QSexact_infeasible_test"], props=props, assumed=[CHK_ASSUMED])
+
+
 GROUPS = [
-    Group("exact/opttest", "exact_checkers.c", tus=["exact.c", "lpdata_mpq.c", "allocrus.c"], model=MODEL, defines=["FN_opttest"] + EXACT,
-          dfcc=False, unwind=8, kind="bounded", bound=CHK_BOUND, timeout=1500,
-          must_fail=["reach_end", "reach_accept", "reach_reject"], functions=["QSexact_optimal_test"], props=["C01"], assumed=[CHK_ASSUMED]),
-    Group("exact/inftest", "exact_checkers.c", tus=["exact.c", "lpdata_mpq.c", "allocrus.c"], model=MODEL, defines=["FN_inftest"] + EXACT,
-          dfcc=False, unwind=8, kind="bounded", bound=CHK_BOUND, timeout=1500,
-          must_fail=["reach_end", "reach_accept", "reach_reject"], functions=["QSexact_infeasible_test"], props=["C02"], assumed=[CHK_ASSUMED]),
+    chk("opttest", ["C01"], 1, 1, "quick", 600),
+    chk("inftest", ["C02"], 1, 1, "quick", 600),
+    chk("opttest", ["C01"], 1, 2, "thorough", 1500),
+    chk("inftest", ["C02"], 1, 2, "thorough", 1500),
+    chk("opttest", ["C01"], 2, 1, "thorough", 1500),
+    chk("inftest", ["C02"], 2, 1, "thorough", 1500),
+    chk("opttest", ["C01"], 2, 2, "thorough", 3000),
+    chk("inftest", ["C02"], 2, 2, "thorough", 3000),
     Group("exact/gating", "exact_gating.c", tus=["exact.c"], model=MODEL, dfcc=False, std_checks=False, slice=True,
           remove_bodies=["QSexact_optimal_test", "QSexact_infeasible_test", "optimal_output", "infeasible_output",
                          "QScopy_prob_mpq_dbl", "QScopy_prob_mpq_mpf"],
